@@ -20,6 +20,7 @@ class ScenarioProperty:
         crash_is_violation: bool = False,
         post=None,
         stepwise: bool = False,
+        machine: dict | None = None,
     ):
         self.prop = prop
         self.profile = profile
@@ -30,11 +31,39 @@ class ScenarioProperty:
         self.crash_is_violation = crash_is_violation
         self.post = post
         self.stepwise = stepwise
+        # machine: None, or kwargs for machine.make_tree_machine (profile=, roundtrip_checks=, allow_reload=, ...)
+        self.machine = machine
 
     def n_examples(self, tier: str, nshards: int, scale: float) -> int:
         return max(3, int(self.budget[tier] * scale / nshards))
 
+    def machine_shard(self, tier, seed, shard, nshards, tally: Tally, scale: float = 1.0):
+        from .common import shard_seed
+        from .driver import machine_drive
+        from .machine import make_tree_machine
+
+        n = max(2, int({"quick": 240, "thorough": 6000}[tier] * scale / nshards))
+        steps = {"quick": 12, "thorough": 30}[tier]
+        kw = dict(self.machine)
+        kw.setdefault("crash_is_violation", self.crash_is_violation)
+        kw.setdefault("run_kwargs", {k: v for k, v in self.run_kwargs.items() if k in ("observe_chain", "proxy_engines")})
+        return machine_drive(
+            self.prop,
+            lambda coll, tl: make_tree_machine(self.prop, self.make_checkers, self.judge, coll, tl, **kw),
+            tally=tally,
+            max_examples=n,
+            steps=steps,
+            seed=shard_seed(seed, shard, 11),
+            kind="machine",
+        )
+
     def run_shard(self, tier, seed, shard, nshards, tally: Tally, scale: float = 1.0, salt: int = 0):
+        fs = self._scenario_shard(tier, seed, shard, nshards, tally, scale, salt)
+        if self.machine is not None:
+            fs += self.machine_shard(tier, seed, shard, nshards, tally, scale)
+        return fs
+
+    def _scenario_shard(self, tier, seed, shard, nshards, tally: Tally, scale: float = 1.0, salt: int = 0):
         return scenario_shard(
             self.prop,
             tally,
@@ -52,6 +81,11 @@ class ScenarioProperty:
         )
 
     def replay(self, case, kind=""):
+        if kind == "machine" or (isinstance(case, dict) and "ops" in case and "scenario" in case):
+            from .machine import replay_machine
+
+            kw = self.machine or {}
+            return replay_machine(case, self.prop, self.make_checkers, kw.get("roundtrip_checks", False), kw.get("crash_is_violation", self.crash_is_violation), {k: v for k, v in self.run_kwargs.items() if k in ("observe_chain", "proxy_engines")})
         return replay_scenario(
             case, self.make_checkers, self.run_kwargs, self.crash_is_violation, self.prop, stepwise=self.stepwise, post=self.post
         )
